@@ -304,6 +304,11 @@ func renderStringarray(data map[string]any, key, oldkey string, example string) 
 
 	var output []string
 	for _, s := range sa {
+		if comment == "" {
+			// a value from the user's file: quote it if YAML would read it as
+			// anything but a string ("*" is an alias indicator, for example)
+			s = yamlf(s)
+		}
 		output = append(output, fmt.Sprintf("%s- %s", comment, s))
 	}
 	return comment + key + ":\n      " + strings.Join(output, "\n      ")
